@@ -240,111 +240,4 @@ theorem encRData_spec_hinfo (pre : Bytes) (names names' : Names) (out c o : Byte
       simp [ERData.onWire]
       omega
 
-def ERData.isNsec : ERData → Bool
-  | .nsec _ _ => true
-  | _ => false
-
-/-- all record kinds except NSEC (whose bitmap round trip is proved separately) -/
-theorem encRData_spec (pre : Bytes) (names names' : Names) (out : Bytes) (rd : ERData) (rtype : Nat)
-    (h12 : 12 ≤ pre.length) (hg : NamesGood pre names) (hwf : WFRData rtype rd) (hns : rd.isNsec = false)
-    (hw : encRData pre.length names rd = .ok (out, names')) (hfin : (pre ++ out).length ≤ 16384) (tail : Bytes) :
-    decRData (pre ++ out ++ tail) rtype pre.length out.length = some rd.onWire ∧ NamesGood (pre ++ out) names' := by
-  cases rd with
-  | addr a => exact encRData_spec_addr pre names names' out a rtype hg hwf hw tail
-  | ptr t => exact encRData_spec_ptr pre names names' out t rtype h12 hg hwf hw hfin tail
-  | txt t => exact encRData_spec_txt pre names names' out t rtype hg hwf hw tail
-  | srv p w q t => exact encRData_spec_srv pre names names' out p w q t rtype h12 hg hwf hw hfin tail
-  | hinfo c o => exact encRData_spec_hinfo pre names names' out c o rtype hg hwf hw tail
-  | nsec n ts => simp [ERData.isNsec] at hns
-
-/-- records inside the quantifier -/
-def WFRec (r : ERecord) (now : Ms) : Prop :=
-  WFName r.name ∧ r.rtype < 65536 ∧ r.rclass < 32768 ∧ wireTtl r now < 4294967296 ∧ WFRData r.rtype r.rdata
-
-instance (r : ERecord) (now : Ms) : Decidable (WFRec r now) := by unfold WFRec; infer_instance
-
-theorem ttlField_eq (r : ERecord) (now : Ms) : 0 ≤ ttlField r now ∧ (ttlField r now).toNat = wireTtl r now := by
-  unfold ttlField wireTtl
-  rw [GenFacts.Outgoing.ttl_field_eq _ _ _ (by omega)]
-  split
-  · simp
-  · split
-    · simp
-    · rename_i hn
-      constructor
-      · exact Int.ediv_nonneg (by omega) (by omega)
-      · trivial
-
-theorem encRecord_spec (mc : Bool) (pre : Bytes) (names names' : Names) (out : Bytes) (r : ERecord) (now : Ms)
-    (h12 : 12 ≤ pre.length) (hg : NamesGood pre names) (hwf : WFRec r now) (hns : r.rdata.isNsec = false)
-    (hw : encRecord mc pre.length names r now = .ok (out, names')) (hfin : (pre ++ out).length ≤ 16384) (tail : Bytes) :
-    decRecord (pre ++ out ++ tail) pre.length = some (r.onWire mc now, (pre ++ out).length) ∧ NamesGood (pre ++ out) names' := by
-  obtain ⟨hn, ht, hc, httl, hrd⟩ := hwf
-  obtain ⟨hpos, htn⟩ := ttlField_eq r now
-  unfold encRecord at hw
-  cases h1 : writeName pre.length names r.name with
-  | error e => simp [h1, bind, Except.bind] at hw
-  | ok r1 =>
-    obtain ⟨nb, names1⟩ := r1
-    have e2 : shortOf r.rtype = .ok (be16 r.rtype) := by simp [shortOf, ht]
-    have hcl : classField r.rclass r.unique mc < 65536 := by
-      rw [classField_eq _ _ _ hc]; unfold wireClass; split <;> omega
-    have e3 : shortOf (classField r.rclass r.unique mc) = .ok (be16 (classField r.rclass r.unique mc)) := by simp [shortOf, hcl]
-    have e4 : (if ttlField r now < 0 then (Except.error PyExc.structError : Except PyExc Bytes) else intOf (ttlField r now).toNat)
-        = .ok (be32 (wireTtl r now)) := by
-      have : ¬ ttlField r now < 0 := by omega
-      simp [this, htn, intOf, httl]
-    simp only [h1, e2, e3, e4, bind, Except.bind] at hw
-    cases h5 : encRData (pre.length + nb.length + 10) names1 r.rdata with
-    | error e => simp [h5] at hw
-    | ok r5 =>
-      obtain ⟨rd, names2⟩ := r5
-      simp only [h5] at hw
-      cases h6 : shortOf rd.length with
-      | error e => simp [h6] at hw
-      | ok lb =>
-        obtain ⟨rfl, hrl⟩ := shortOf_ok h6
-        simp only [h6, pure, Except.pure, Except.ok.injEq, Prod.mk.injEq] at hw
-        obtain ⟨rfl, rfl⟩ := hw
-        let pre1 := pre ++ nb
-        let fixed := be16 r.rtype ++ be16 (classField r.rclass r.unique mc) ++ be32 (wireTtl r now) ++ be16 rd.length
-        let pre2 := pre1 ++ fixed
-        have hl2 : pre2.length = pre.length + nb.length + 10 := by simp [pre2, pre1, fixed, be16_length, be32_length]; omega
-        have hbuf : pre ++ (nb ++ be16 r.rtype ++ be16 (classField r.rclass r.unique mc) ++ be32 (wireTtl r now) ++ be16 rd.length ++ rd)
-            = pre2 ++ rd := by simp [pre2, pre1, fixed]
-        rw [hbuf] at hfin ⊢
-        have hlen2 : (pre2 ++ rd).length = pre1.length + 10 + rd.length := by
-          simp [pre2, pre1, fixed, be16_length, be32_length]; omega
-        have hfin1 : (pre ++ nb).length ≤ 16384 := by
-          have : (pre2 ++ rd).length = pre.length + nb.length + 10 + rd.length := by rw [List.length_append, hl2]
-          simp; omega
-        obtain ⟨hdn, hng1, _⟩ := writeName_spec pre names names1 nb r.name h12 hg hn h1 hfin1
-        have hg2 : NamesGood pre2 names1 := hng1.append fixed
-        rw [← hl2] at h5
-        obtain ⟨hdr, hng2⟩ := encRData_spec pre2 names1 names2 rd r.rdata r.rtype (by omega) hg2 hrd hns h5 hfin tail
-        refine ⟨?_, hng2⟩
-        have hdn' : decName (pre2 ++ rd ++ tail) pre.length = some (r.name, pre1.length) := by
-          have := decName_append (fixed ++ rd ++ tail) hdn
-          simpa [pre2, pre1, List.append_assoc] using this
-        have hl1 : pre1.length = pre.length + nb.length := by simp [pre1]
-        have u1 : u16At (pre2 ++ rd ++ tail) pre1.length = some r.rtype :=
-          u16At_of_eq _ pre1 (be16 (classField r.rclass r.unique mc) ++ be32 (wireTtl r now) ++ be16 rd.length ++ rd ++ tail) _ _
-            (by simp [pre2, fixed]) rfl ht
-        have u2 : u16At (pre2 ++ rd ++ tail) (pre1.length + 2) = some (classField r.rclass r.unique mc) :=
-          u16At_of_eq _ (pre1 ++ be16 r.rtype) (be32 (wireTtl r now) ++ be16 rd.length ++ rd ++ tail) _ _
-            (by simp [pre2, fixed]) (by simp [be16_length]) hcl
-        have u3 : u32At (pre2 ++ rd ++ tail) (pre1.length + 4) = some (wireTtl r now) :=
-          u32At_of_eq _ (pre1 ++ be16 r.rtype ++ be16 (classField r.rclass r.unique mc)) (be16 rd.length ++ rd ++ tail) _ _
-            (by simp [pre2, fixed]) (by simp [be16_length]) httl
-        have u4 : u16At (pre2 ++ rd ++ tail) (pre1.length + 8) = some rd.length :=
-          u16At_of_eq _ (pre1 ++ be16 r.rtype ++ be16 (classField r.rclass r.unique mc) ++ be32 (wireTtl r now)) (rd ++ tail) _ _
-            (by simp [pre2, fixed]) (by simp [be16_length, be32_length]) hrl
-        have hle : pre1.length + 10 + rd.length ≤ (pre2 ++ rd ++ tail).length := by
-          have : (pre2 ++ rd ++ tail).length = pre2.length + rd.length + tail.length := by simp; omega
-          omega
-        have hoff : pre1.length + 10 = pre2.length := by rw [hl2, hl1]
-        unfold decRecord
-        simp only [bind, Option.bind, hdn', u1, u2, u3, u4, hle, if_true, hoff, hdr, pure]
-        simp [ERecord.onWire, classField_eq _ _ _ hc]
-
 end Zc.Wire.Encode
